@@ -1013,11 +1013,20 @@ def truc_rule_offsets(ctx, crate):
     def taken_field(op):
         s = trace_value(b, defs, op)
         x = s[-1]
+        if x[0] == 'place' and len([e for e in x[1]['p'] if isinstance(e, dict) and 'name' in e]) == 1:
+            # a field of a group of pending lists taken as a whole: `let Pending { data_to_add, .. } = take(&mut self.pending)`
+            fname = [e.get('name') for e in x[1]['p'] if isinstance(e, dict) and 'name' in e][0]
+            whole = trace_value(b, defs, {'copy': {'l': x[1]['l'], 'p': [], 'ty': None}})[-1]
+            if whole[0] == 'call' and callee_path(whole[1]) == 'core::mem::take':
+                y = trace_value(b, defs, whole[1]['args'][0])[-1]
+                if y[0] == 'ref' and y[2]['l'] == 1 and y[1] == 'mut':
+                    return [fname]
+            return None
         if x[0] == 'call' and callee_path(x[1]) == 'core::mem::take':
             r = trace_value(b, defs, x[1]['args'][0])
             y = r[-1]
             if y[0] == 'ref' and y[2]['l'] == 1:
-                return [e.get('name') for e in y[2]['p'] if isinstance(e, dict) and 'name' in e]
+                return [e.get('name') for e in y[2]['p'] if isinstance(e, dict) and 'name' in e][-1:]
         return None
     a2, a3 = taken_field(t['args'][2]), taken_field(t['args'][3])
     r4 = trace_value(b, defs, t['args'][4])[-1]
@@ -1145,13 +1154,17 @@ def edge_for(b, bb, truth):
     return tg.get(0, t['otherwise']) if 0 in tg else t['otherwise']
 
 
+KNOWN_BUILDER_FIELDS = ('data_to_add', 'data_to_remove', 'variants', 'datum_definitions')
+
+
 def self_field_of(b, defs, op):
     """operand that is (a reborrow of) &[mut] (*_1).<fields…> -> (names, is_mut) else None"""
     s = trace_value(b, defs, op)
     x = s[-1]
     if x[0] == 'ref' and x[2]['l'] == 1 and x[2]['p'] and x[2]['p'][0] == 'deref':
         names = [e.get('name') for e in x[2]['p'][1:] if isinstance(e, dict) and 'name' in e]
-        return names, x[1] == 'mut'
+        # (`self.pending.data_to_add` is the same list as `self.data_to_add`: the innermost field names it)
+        return (names[-1:] if len(names) > 1 and names[-1] in KNOWN_BUILDER_FIELDS else names), x[1] == 'mut'
     if x[0] == 'call' and callee_path(x[1]) in ('<alloc::vec::Vec<T, A> as core::ops::deref::Deref>::deref', '<alloc::vec::Vec<T, A> as core::ops::deref::DerefMut>::deref_mut'):
         return self_field_of(b, defs, x[1]['args'][0])
     if x[0] == 'param' and x[1] == 1:
@@ -1514,15 +1527,16 @@ def truc_rule_builder(ctx, crate):
         def field_of_self(op):
             sf = self_field_of(b, defs, op)
             if sf is not None:
-                return tuple(sf[0])
+                return tuple(sf[0][-1:])
             r = trace_value(b, defs, op)[-1]
             if r[0] == 'ref' and r[2]['l'] == 1:          # `self` by value: &_1.field
-                return tuple(e.get('name') for e in r[2]['p'] if isinstance(e, dict) and 'name' in e)
+                return tuple([e.get('name') for e in r[2]['p'] if isinstance(e, dict) and 'name' in e][-1:])
             if r[0] == 'ref' and r[2]['p'] and r[2]['p'][0] == 'deref':
                 # through a `&self` helper that was inlined: (*_x).field with _x = &_1
                 d0 = single_def(defs, r[2]['l'])
-                if d0 and d0[0] == 'stmt' and d0[3]['rv']['k'] == 'ref' and not d0[3]['rv']['place']['p'] and d0[3]['rv']['place']['l'] == 1:
-                    return tuple(e.get('name') for e in r[2]['p'] if isinstance(e, dict) and 'name' in e)
+                if d0 and d0[0] == 'stmt' and d0[3]['rv']['k'] == 'ref' and d0[3]['rv']['place']['l'] == 1 and 'deref' not in d0[3]['rv']['place']['p']:
+                    # _x = &_1 or &_1.group: (*_x).field is a field of self (possibly inside a private group struct)
+                    return tuple([e.get('name') for e in r[2]['p'] if isinstance(e, dict) and 'name' in e][-1:])
             return None
 
         def sym(tm):
@@ -2094,7 +2108,7 @@ def fields_touched(crate, b, seen=None, depth=0):
     ADT = T + 'builder::generic::GenericRecordDefinitionBuilder'
     def scan_place(pl):
         for e in pl['p']:
-            if isinstance(e, dict) and e.get('adt') == ADT and 'name' in e:
+            if isinstance(e, dict) and 'name' in e and (e.get('adt') == ADT or (e.get('adt') or '').startswith(T + 'builder::generic::')):
                 out.add(e['name'])
     for x in [b] + crate.closures_of(b.path):
         for _, _, st in x.statements():
